@@ -169,7 +169,24 @@ static size_t seq_bytes(const pkcfg *c) {
     return ((size_t)SEQCAP * (size_t)c->bits + (size_t)c->slot - 1) / (size_t)c->slot * sb + sb;
 }
 
-static void run_pwalk(const pkcfg *c, char *spec) {
+/* The sorted layer's behaviour depends on the ORDER of the values only, so a
+ * walk over the model's alphabet {0, 1, 5, 7} is replayed under several
+ * order-preserving embeddings into the element range: as is; spread over the
+ * whole range with two values on either side of the element's top bit (the
+ * sign bit of a same-width signed difference); and flush against the maximum. */
+static unsigned long embed(unsigned long v, int bits, int mode) {
+    unsigned long long max = bits >= 32 ? 0xFFFFFFFFULL : ((1ULL << bits) - 1);
+    unsigned long long half = 1ULL << (bits - 1);
+    if (mode == 1) {
+        return (unsigned long)(v == 0 ? 0 : v == 1 ? half - 1 : v == 5 ? half : v == 7 ? max : v);
+    }
+    if (mode == 2) {
+        return (unsigned long)(v <= 7 ? max - 7 + v : v);
+    }
+    return v;
+}
+
+static void run_pwalk(const pkcfg *c, char *spec, int mode) {
     uint8_t mem[256];
     size_t mb = seq_bytes(c);
     fill(mem, mb, 2);
@@ -184,7 +201,8 @@ static void run_pwalk(const pkcfg *c, char *spec) {
         if (sscanf(tok, " %23s %lu", op, &a) < 2) {
             continue;
         }
-        seq_step(c, mem, mb, &len, op, 0, a);
+        int positional_op = !strcmp(op, "InsertAt") || !strcmp(op, "DeleteAt") || !strcmp(op, "Insert") || !strcmp(op, "Delete");
+        seq_step(c, mem, mb, &len, op, 0, positional_op ? a : embed(a, c->bits, mode));
     }
 }
 
@@ -253,7 +271,22 @@ int main(int argc, char **argv) {
         if (idx % nshards != shard) {
             continue;
         }
-        run_pwalk(&PK[wide[(idx / nshards) % (size_t)nwide]], line + 2);
+        {
+            /* one embedding per walk (the walks are exhaustive over operation
+             * sequences; the embedding rotates), 32-bit elements for half of
+             * the spread / high replays */
+            size_t pick = idx / nshards;
+            int mode = (int)(pick % 3);
+            const pkcfg *c = &PK[wide[pick % (size_t)nwide]];
+            if (mode && (pick / 3) % 2 == 0) {
+                for (int k = 0; k < NPK; k++) {
+                    if (PK[k].bits == 32 && (size_t)k % 4 == (pick / 6) % 4) {
+                        c = &PK[k];
+                    }
+                }
+            }
+            run_pwalk(c, line + 2, mode);
+        }
     }
     fclose(f);
     tr_close();
